@@ -562,7 +562,8 @@ impl<Backing : AsRef<[u32]> + AsMut<[u32]>> DrawTarget<Backing> {
                 mask: mask.clone(),
             },
             _ => Clip {
-                rect: rect,
+                // never let the clip extend past the surface
+                rect: self.clip_bounds().intersection_unchecked(&rect),
                 mask: None,
             },
         };
